@@ -260,7 +260,9 @@ def check_main(prop, tier):
     known, viol = findings.classify(prop, m['failures'])
     wall = time.time() - t0
     # replay files
-    os.makedirs(os.path.join(VERIF, 'replay'), exist_ok=True)
+    replay_dir = os.environ.get('VERIF_REPLAY_DIR', os.path.join(VERIF, 'replay'))
+    evidence_dir = os.environ.get('VERIF_EVIDENCE_DIR', os.path.join(VERIF, 'evidence'))
+    os.makedirs(replay_dir, exist_ok=True)
     lines = []
     seen_kinds = {}
     for n, f in enumerate(viol):
@@ -268,7 +270,7 @@ def check_main(prop, tier):
         seen_kinds[k] = seen_kinds.get(k, 0) + 1
         if seen_kinds[k] > 3 or len(lines) >= 12:
             continue
-        path = os.path.join('replay', '%s-%s-%d.json' % (prop, seed, n))
+        path = os.path.join(os.path.relpath(replay_dir, VERIF), '%s-%s-%d.json' % (prop, seed, n))
         json.dump({'property': prop, 'tier': tier, 'seed': seed, 'failure': f}, open(os.path.join(VERIF, path), 'w'),
                   indent=1)
         lines.append('VIOLATION property=%s replay=%s kind=%s detail=%s' % (prop, path, k, json.dumps(
@@ -295,8 +297,8 @@ def check_main(prop, tier):
         'wall_s': round(wall, 2),
         'violations': len(viol),
     }
-    os.makedirs(os.path.join(VERIF, 'evidence'), exist_ok=True)
-    with open(os.path.join(VERIF, 'evidence', prop + '.json'), 'w') as f:
+    os.makedirs(evidence_dir, exist_ok=True)
+    with open(os.path.join(evidence_dir, prop + '.json'), 'w') as f:
         json.dump(jsonable(ev), f, indent=1)
         f.write('\n')
     print('%s %s seed=%d: %d evaluations, %d distinct non-trivial, %d shards, %.1fs; tree=%s' % (
